@@ -609,7 +609,7 @@ func c11LocalRealtime(c c11Case, v *vlib.Verdict) {
 		inject(c11FloodFrames(*c.Flood), true)
 	}
 	time.Sleep(500 * time.Millisecond)
-	if !c11LocalCreates(c, M, v, 20*time.Second) {
+	if !c11LocalCreates(c, M, v, 45*time.Second) {
 		go P.Stop()
 		return // (Stop of M would wait for the same lock)
 	}
@@ -617,8 +617,8 @@ func c11LocalRealtime(c c11Case, v *vlib.Verdict) {
 	go func() { M.Stop(); close(done) }()
 	select {
 	case <-done:
-	case <-time.After(30 * time.Second):
-		v.Failf("C11:stop-does-not-return", "Muxer.Stop did not return within 30 s of real time after the local application created its tubes")
+	case <-time.After(60 * time.Second):
+		v.Failf("C11:stop-does-not-return", "Muxer.Stop did not return within 60 s of real time after the local application created its tubes")
 	}
 	go P.Stop()
 }
